@@ -456,6 +456,14 @@ var Catalogue = []Mutation{
 			return true
 		})
 	}},
+	// is_slashable_validator, one conjunct at a time: correctly signed slashings of a validator that is
+	// not yet active (still in the deposit/activation queue), already withdrawable, or already slashed.
+	{"PSL-VALIDATOR-NOT-YET-ACTIVE", "pabcd", func(m *MutCtx) bool { return insertPSL(m, unslashableNotYetActive) }},
+	{"PSL-VALIDATOR-WITHDRAWABLE", "pabcd", func(m *MutCtx) bool { return insertPSL(m, unslashableWithdrawable) }},
+	{"PSL-VALIDATOR-ALREADY-SLASHED", "pabcd", func(m *MutCtx) bool { return insertPSL(m, unslashableSlashed) }},
+	{"ASL-VALIDATOR-NOT-YET-ACTIVE", "pabcd", func(m *MutCtx) bool { return insertASL(m, unslashableNotYetActive) }},
+	{"ASL-VALIDATOR-WITHDRAWABLE", "pabcd", func(m *MutCtx) bool { return insertASL(m, unslashableWithdrawable) }},
+	{"ASL-VALIDATOR-ALREADY-SLASHED", "pabcd", func(m *MutCtx) bool { return insertASL(m, unslashableSlashed) }},
 	{"ORDER-SLASH-TWICE", "pabcd", func(m *MutCtx) bool {
 		b := &m.B.Message.Body
 		if len(b.ProposerSlashings) == 0 || uint64(len(b.ProposerSlashings)) >= m.sp().P.MAX_PROPOSER_SLASHINGS {
@@ -925,6 +933,84 @@ func signHeader(m *MutCtx, h *refspec.SignedBeaconBlockHeader, key uint64) {
 	sp := m.sp()
 	dom := sp.GetDomain(m.Pre, refspec.DOMAIN_BEACON_PROPOSER, sp.EpochAtSlot(h.Message.Slot))
 	h.Signature = refspec.Sign(key, sp.ComputeSigningRoot(sp.HeaderRoot(&h.Message), dom))
+}
+
+func unslashableNotYetActive(v *refspec.Validator, epoch uint64) bool {
+	return !v.Slashed && v.ActivationEpoch > epoch
+}
+func unslashableWithdrawable(v *refspec.Validator, epoch uint64) bool {
+	return !v.Slashed && v.WithdrawableEpoch <= epoch
+}
+func unslashableSlashed(v *refspec.Validator, epoch uint64) bool {
+	return v.Slashed && v.ActivationEpoch <= epoch && epoch < v.WithdrawableEpoch
+}
+
+// pickValidator returns a validator (with a known key) satisfying pred, preferring — for the
+// not-yet-active class — those already eligible for activation (eligibility epoch reached).
+func pickValidator(m *MutCtx, pred func(v *refspec.Validator, epoch uint64) bool) (uint64, uint64, bool) {
+	epoch := m.sp().CurrentEpoch(m.Pre)
+	var cand, pref []uint64
+	for i := range m.Pre.Validators {
+		v := &m.Pre.Validators[i]
+		if _, ok := m.keyOfValidator(uint64(i)); !ok || !pred(v, epoch) {
+			continue
+		}
+		cand = append(cand, uint64(i))
+		if v.ActivationEligibilityEpoch <= epoch {
+			pref = append(pref, uint64(i))
+		}
+	}
+	if len(pref) > 0 && m.Pr.pm(700) {
+		cand = pref
+	}
+	if len(cand) == 0 {
+		return 0, 0, false
+	}
+	vi := cand[m.Pr.n(len(cand))]
+	k, _ := m.keyOfValidator(vi)
+	return vi, k, true
+}
+
+func insertPSL(m *MutCtx, pred func(v *refspec.Validator, epoch uint64) bool) bool {
+	vi, k, ok := pickValidator(m, pred)
+	if !ok {
+		return false
+	}
+	h1 := refspec.BeaconBlockHeader{Slot: m.B.Message.Slot, ProposerIndex: vi, ParentRoot: m.Pr.root(), StateRoot: m.Pr.root(), BodyRoot: m.Pr.root()}
+	h2 := h1
+	h2.BodyRoot = m.Pr.root()
+	ps := refspec.ProposerSlashing{H1: refspec.SignedBeaconBlockHeader{Message: h1}, H2: refspec.SignedBeaconBlockHeader{Message: h2}}
+	signHeader(m, &ps.H1, k)
+	signHeader(m, &ps.H2, k)
+	b := &m.B.Message.Body
+	if len(b.ProposerSlashings) > 0 {
+		b.ProposerSlashings[m.Pr.n(len(b.ProposerSlashings))] = ps
+	} else {
+		b.ProposerSlashings = append(b.ProposerSlashings, ps)
+	}
+	return true
+}
+
+func insertASL(m *MutCtx, pred func(v *refspec.Validator, epoch uint64) bool) bool {
+	vi, _, ok := pickValidator(m, pred)
+	if !ok {
+		return false
+	}
+	sp := m.sp()
+	epoch := sp.CurrentEpoch(m.Pre)
+	d1 := refspec.AttestationData{Slot: sp.StartSlotAtEpoch(epoch), BeaconBlockRoot: m.Pr.root(), Source: refspec.Checkpoint{Epoch: epoch / 2, Root: m.Pr.root()}, Target: refspec.Checkpoint{Epoch: epoch, Root: m.Pr.root()}}
+	d2 := d1
+	d2.BeaconBlockRoot = m.Pr.root()
+	as := refspec.AttesterSlashing{A1: refspec.IndexedAttestation{Indices: []uint64{vi}, Data: d1}, A2: refspec.IndexedAttestation{Indices: []uint64{vi}, Data: d2}}
+	m.signIndexed(&as.A1)
+	m.signIndexed(&as.A2)
+	b := &m.B.Message.Body
+	if len(b.AttesterSlashings) > 0 {
+		b.AttesterSlashings[m.Pr.n(len(b.AttesterSlashings))] = as
+	} else {
+		b.AttesterSlashings = append(b.AttesterSlashings, as)
+	}
+	return true
 }
 
 func mutPSL(m *MutCtx, f func(s *refspec.ProposerSlashing, key uint64) bool) bool {
